@@ -163,8 +163,16 @@ pub open spec fn buf_frame_common(a: Buffer, b: Buffer) -> bool {
 pub open spec fn buf_frame_ts(a: Buffer, b: Buffer) -> bool {      // only terminal_state changes
     buf_frame_common(a, b) && a.size == b.size && a.layers == b.layers && a.sauce_data == b.sauce_data
 }
+// the metadata of a SAUCE record: everything but the mirrored buffer size
+pub open spec fn sauce_meta_eq(a: Option<SauceData>, b: Option<SauceData>) -> bool {
+    (a is Some) == (b is Some) && (a is Some ==> {
+        let x = a->Some_0; let y = b->Some_0;
+        x.title == y.title && x.author == y.author && x.group == y.group && x.comments == y.comments && x.creation_time == y.creation_time
+        && x.use_ice == y.use_ice && x.use_letter_spacing == y.use_letter_spacing && x.use_aspect_ratio == y.use_aspect_ratio
+    })
+}
 pub open spec fn buf_frame_size(a: Buffer, b: Buffer) -> bool {    // only size (and its SAUCE mirror) changes
-    buf_frame_common(a, b) && a.terminal_state == b.terminal_state && a.layers == b.layers
+    buf_frame_common(a, b) && a.terminal_state == b.terminal_state && a.layers == b.layers && sauce_meta_eq(a.sauce_data, b.sauce_data)
 }
 pub open spec fn buf_frame_threads(a: Buffer, b: Buffer) -> bool { // only sixel_threads changes
     buf_frame_common(a, b) && a.size == b.size && a.terminal_state == b.terminal_state && a.layers == b.layers && a.sauce_data == b.sauce_data
